@@ -1338,6 +1338,7 @@ fn kernel_events<T: Smp>(op: &Value, cx: &mut Ctx) {
         let mut outside_zero: Vec<bool> = vec![];
         let mut inside_nonzero: Vec<i64> = vec![];
         let mut dense: Vec<i64> = vec![];
+        let mut nan_ok: Vec<bool> = vec![];
         // dense reference: noise with a huge dynamic range
         let noise: Vec<f64> = (0..wave_len)
             .map(|n| sample_at(&Signal::Big, seed, 0, n as i64))
@@ -1349,6 +1350,7 @@ fn kernel_events<T: Smp>(op: &Value, cx: &mut Ctx) {
                 Some(k) => k,
                 None => {
                     digs.push("absent".into());
+                    nan_ok.push(true);
                     outside_zero.push(true);
                     inside_nonzero.push(-1);
                     dense.push(-1);
@@ -1382,6 +1384,20 @@ fn kernel_events<T: Smp>(op: &Value, cx: &mut Ctx) {
             digs.push(format!("{:016x}", h));
             outside_zero.push(oz);
             inside_nonzero.push(nz);
+            // the window holds finite noise, EVERYTHING else in the allocation is NaN: a kernel that
+            // touches a sample outside [index, index + L) - even with a zero coefficient - returns NaN
+            let mut fin = [0u64; 2];
+            for (pass, fill) in [0.0f64, f64::NAN].iter().enumerate() {
+                for x in store.iter_mut() {
+                    *x = T::from64(*fill);
+                }
+                for j in index..index + l {
+                    store[align + j] = T::from64(noise[j]);
+                }
+                let v = k.get_sinc_interpolated(&store[align..align + wave_len], index, sub);
+                fin[pass] = v.bits64();
+            }
+            nan_ok.push(fin[0] == fin[1]);
             // dense wave
             for (n, x) in noise.iter().enumerate() {
                 store[align + n] = T::from64(*x);
@@ -1400,7 +1416,7 @@ fn kernel_events<T: Smp>(op: &Value, cx: &mut Ctx) {
         cx.emit(json!({"ev":"kernel","id":0,"T":T::BITS as i64,"L":l as i64,"F":f as i64,
             "index":index as i64,"sub":sub as i64,"align":align as i64,
             "names":names,"dig":digs,"outside_zero":outside_zero,"inside_nonzero":inside_nonzero,
-            "dense_milli":dense}));
+            "dense_milli":dense,"nan_ok":nan_ok}));
     }
 }
 
